@@ -26,15 +26,15 @@ ASSUMPTIONS = [
     "bfs/dfs with goal=None: the documented reachable set is compared (shared-input agreement)",
 ]
 STRATA = [
-    ("random", 500, 9000),
-    ("zero-ties", 400, 7000),
-    ("multi", 400, 7000),
-    ("detour", 400, 7000),
-    ("negative", 500, 9000),
-    ("bf-chain", 300, 5000),
-    ("bigger", 300, 5000),
-    ("grid4", 1000, 18000),
-    ("grid8", 1000, 18000),
+    ("random", 900, 9000),
+    ("zero-ties", 700, 7000),
+    ("multi", 700, 7000),
+    ("detour", 700, 7000),
+    ("negative", 900, 9000),
+    ("bf-chain", 500, 5000),
+    ("bigger", 500, 5000),
+    ("grid4", 1800, 18000),
+    ("grid8", 1800, 18000),
 ]
 REQUIRED_EVENTS = {"any": ["sp.distance", "sp.path", "sp.infeasible-iff-unreachable", "sp.unbounded-iff-negcycle",
                            "sp.matrix-entries", "sp.agree", "sp.max_cost", "sp.max_iter", "dfs.path", "reach.set",
